@@ -1523,7 +1523,13 @@ class virtualQubit(pb.Referenceable):
         # Lock the control qubits register
         # If the target is in the same register we don't want to lock again so first check
         # what case we are in
-        yield self._lock_inreg(self)
+        try:
+            yield self._lock_inreg(self)
+        except Exception:
+            # Nothing else is held yet: give the node locks back before reporting the failure
+            for node in locked_nodes:
+                yield call_method(node.root, "release_global_lock")
+            raise
         # if self.simQubit.register != target.simQubit.register:
 
         # Todo a 2 qubit gate, both qubits must be in the same simulated register. We will merge
@@ -1660,9 +1666,11 @@ class virtualQubit(pb.Referenceable):
             self.virtNode.root.reraise_remote_error(remote_err)
         finally:
             # Release the locks in the register of the control (which now contains also the others)
-            yield self._unlock_inreg(self)
-            for node in locked_nodes:
-                yield call_method(node.root, "release_global_lock")
+            try:
+                yield self._unlock_inreg(self)
+            finally:
+                for node in locked_nodes:
+                    yield call_method(node.root, "release_global_lock")
 
     @inlineCallbacks
     def remote_get_number(self):
